@@ -118,6 +118,13 @@ pub fn exec_present(input: &Value) -> Value {
         for r in &redact {
             h.redact(r)?;
         }
+        // an earlier key_binding call on the same Holder (a corrected typo, another verifier): the last call counts
+        if input["kb_first"].is_object() {
+            let f = &input["kb_first"];
+            let alg = f["alg"].as_str().unwrap_or("RS256");
+            let (ek, _) = crate::keys::pair(alg);
+            h.key_binding(f["aud"].as_str().unwrap_or(""), &ek, algorithm(alg))?;
+        }
         if kb.is_object() {
             let alg = kb["alg"].as_str().unwrap_or("RS256");
             let (ek, _) = crate::keys::pair(alg);
